@@ -13,8 +13,7 @@
        over by C04's skip_exact, the frames go through C07's reassembly theorem) for every well-formed schema
        environment, EVERY signature (in and out parameters in any order), every well-typed argument and result value
        of every IDL type, ANY content of the caller's out variables. Side conditions, all explicit: static size conditions [sig_fine],
-       out arguments within the skipping reader's limits [outs_skippable] (nesting <= the skip depth limit regenerated
-       from the code, containers < 2^30), packets in their Go field ranges and within maxPackageLength. Values are exact
+       out arguments within the skipping reader's size limits [outs_small] (containers < 2^30), packets in their Go field ranges and within maxPackageLength. Values are exact
        up to [norm] (identity except an optional scalar struct member equal to its default: -0.0 comes back as +0.0).
      - C01_..._partial: the same clauses under the named per-call hypotheses [wire_ok_req], [wire_ok_rsp],
        [args_roundtrip], [results_roundtrip] instead of typing (any values, pre-filled out variables; evaluated on every
@@ -25,12 +24,19 @@
        ReadSliceInt8/Uint8 (an empty byte vector is assigned) were repaired since, C04_reuse_member made nested structs
        independent of their target, and Rpc/PriorIndep.v extends this to every required non-array member. None of the
        closed theorems asks for fresh out variables any more. Remaining side conditions and why:
-         [sig_fine]       static: by-value struct nesting <= k <= 40, parameter count + static depth bound of the types
-                          within the constant 64 of the generated decoders' fuel formula (a limit of the model's fuel,
-                          not of the code; checked by computation for every function of the test IDL);
-         [outs_skippable] the request carries the out arguments; the dispatcher must pass over them with skipField, which
-                          refuses nesting deeper than the skip depth limit (regenerated constant) and whose map/list
-                          counts are int32 products: a deeper or larger out argument makes the CODE fail the call;
+         [sig_fine]       static and about types only: every parameter/return type has a finite type graph (no
+                          recursive struct) with by-value struct nesting <= k <= 40 and static depth bound (tneed, which
+                          counts struct members) + k + 5 within the constant 64 of the generated decoders' fuel formula
+                          4*len+64; the number of parameters does not matter (need_fields_bound2). A limit of the
+                          proof's static fuel bound, not of the code: the correspondence samples the recursive type
+                          Node and functions with 22 parameters and the model agrees with the code there;
+         [outs_small]     the request carries the out arguments; the dispatcher passes over those in front of an in
+                          argument with skipField, whose counts are int32 products: strings < 2^31 bytes, containers
+                          < 2^30 elements (more than a packet can carry anyway; not derived from sendability because
+                          omitted defaults are not in the packet). The DEPTH part of skippability (nesting <= the skip
+                          depth limit 512 regenerated from the code) follows from [sig_fine] for finite types
+                          (vdepth_bound, outs_skippable_static); for a recursive type it can fail and then the CODE
+                          fails the call (C01_deep_out_argument_witness; known finding);
          [no_array_params] fixed-size arrays keep elements beyond the count on the wire; the IDL grammar has array
                           types for struct members only, never for parameters or return values (parse.go);
          [canonical_call] only for EXACT values: an optional scalar struct member that equals its default without being
@@ -51,7 +57,7 @@ Definition C01_transparent_ok_any_outs_statement : Prop :=
     fields_of e sid_req = schema_requestf_RequestPacket -> fields_of e sid_rsp = schema_requestf_ResponsePacket ->
     max < 4294967296 ->
     let q := mkreq e f args o false id sv t in
-    find_fn i (fs_name f) = Some f -> sig_fine e k n f -> args_typed e (fs_args f) args -> outs_skippable f args ->
+    find_fn i (fs_name f) = Some f -> sig_fine e k n f -> args_typed e (fs_args f) args -> outs_small f args ->
     no_array_params f ->
     impl (fs_name f) (ins_of f args) (ctx_of o) (status_of o) = IOk ret outs rc rs -> ret_shape f ret ->
     results_typed e f (results ret outs) -> canonical_call e f args ret outs ->
@@ -66,7 +72,7 @@ Proof. exact EndToEndFull.transparent_ok_statement_holds. Qed.
    hypotheses and, on the repaired model and code, its conclusion: the caller reads nums = [] *)
 Theorem C01_prefilled_out_witness :
   find_fn [fx_sig] (fs_name fx_sig) = Some fx_sig /\ sig_fine env0 2 4 fx_sig /\ args_typed env0 (fs_args fx_sig) fx_args_prefilled /\
-  outs_skippable fx_sig fx_args_prefilled /\ results_typed env0 fx_sig (results ex_ret fx_outs_empty) /\
+  outs_small fx_sig fx_args_prefilled /\ results_typed env0 fx_sig (results ex_ret fx_outs_empty) /\
   req_sendable env0 SR MAXP fx_qp /\ rsp_sendable env0 SP MAXP (ok_reply env0 fx_sig fx_qp ex_ret fx_outs_empty ex_rc ex_rs) /\
   fst (call env0 SR SP MAXP fx_impl_empty (filters_of inv_res ex_pc) (filters_of disp_res ex_ps) [fx_sig] fx_sig fx_args_prefilled ex_opts false 41 [79; 98; 106] 3000)
   = COk ex_ret fx_outs_empty [ex_rc; ex_rs].
@@ -80,7 +86,7 @@ Theorem C01_minus_zero_witness :
   /\ ins_seen env0 nz_sig nz_args <> ins_of nz_sig nz_args.
 Proof. exact EndToEndExamples.nz_minus_zero_arrives_as_plus_zero. Qed.
 
-(* why [outs_skippable] is needed (and what the code does without it): int deep(out Node o, int a) with the caller's o
+(* why skippable out arguments are needed (for finite types [sig_fine] gives the depth; recursive types are outside) (and what the code does without it): int deep(out Node o, int a) with the caller's o
    nested 256 structs deep succeeds, with 257 structs (513 nesting levels on the wire, skip limit 512) the call fails
    before the implementation is reached - on the model and on the code (known finding
    e2e/spurious-error/prefilled-out-argument-deeper-than-skip-limit) *)
@@ -104,7 +110,7 @@ Theorem C01_transparent_ok :
     max < 4294967296 ->
     let q := mkreq e f args o false id sv t in
     find_fn i (fs_name f) = Some f -> sig_fine e k n f ->
-    args_typed e (fs_args f) args -> outs_skippable f args -> no_array_params f ->
+    args_typed e (fs_args f) args -> outs_small f args -> no_array_params f ->
     impl (fs_name f) (ins_seen e f args) (ctx_of o) (status_of o) = IOk ret outs rc rs ->
     results_typed e f (results ret outs) ->
     req_sendable e sid_req max q -> rsp_sendable e sid_rsp max (ok_reply e f q ret outs rc rs) ->
@@ -121,7 +127,7 @@ Theorem C01_transparent_err :
     fields_of e sid_req = schema_requestf_RequestPacket -> fields_of e sid_rsp = schema_requestf_ResponsePacket ->
     max < 4294967296 ->
     let q := mkreq e f args o false id sv t in
-    find_fn i (fs_name f) = Some f -> sig_fine e k n f -> args_typed e (fs_args f) args -> outs_skippable f args ->
+    find_fn i (fs_name f) = Some f -> sig_fine e k n f -> args_typed e (fs_args f) args -> outs_small f args ->
     impl (fs_name f) (ins_seen e f args) (ctx_of o) (status_of o) = IFail c m -> c <> 0%Z ->
     req_sendable e sid_req max q -> rsp_sendable e sid_rsp max (err_reply q c m) ->
     call e sid_req sid_rsp max impl (filters_of inv_res Pc) (filters_of disp_res Ps) i f args o false id sv t =
@@ -137,7 +143,7 @@ Theorem C01_oneway :
     fields_of e sid_req = schema_requestf_RequestPacket -> fields_of e sid_rsp = schema_requestf_ResponsePacket ->
     max < 4294967296 ->
     let q := mkreq e f args o true id sv t in
-    find_fn i (fs_name f) = Some f -> sig_fine e k n f -> args_typed e (fs_args f) args -> outs_skippable f args ->
+    find_fn i (fs_name f) = Some f -> sig_fine e k n f -> args_typed e (fs_args f) args -> outs_small f args ->
     req_sendable e sid_req max q ->
     call e sid_req sid_rsp max impl (filters_of inv_res Pc) (filters_of disp_res Ps) i f args o true id sv t =
     (CSent,
